@@ -47,6 +47,43 @@ fn storable_line(rng: &mut Rng) -> String {
 pub fn cases(rng: &mut Rng, tier: &str) -> (Vec<Case>, bool) {
     let n = if tier == "thorough" { 4000 } else { 400 };
     let mut cases = vec![];
+    // very long lines typed WITHOUT blanks: LIST puts a blank between tokens and re-renders DATA items, so the listing is up to
+    // 2.5 times as long as what was typed - and is a line like any other for the interpreter that reloads it
+    let sizes: &[usize] = if tier == "thorough" { &[600, 3000, 6000, 12000, 30000] } else { &[600, 6000, 12000] };
+    for &n in sizes {
+        let data = format!("DATA {}", vec!["1"; n].join(","));
+        let sum = format!("IF 0 THEN PRINT {}", vec!["1"; n].join("+"));
+        let strs = format!("DATA {}", vec!["ab"; n / 2].join(","));
+        let prints = format!("PRINT {}", vec!["1"; n / 2].join(";"));
+        for (lo, hi) in [(data.clone(), "READ A, B : PRINT A + B".to_string()), (sum, "PRINT \"after\"".to_string()), (strs, "READ A$ : PRINT A$".to_string()), (prints, "PRINT 2".to_string())] {
+            let mut w = Walk::new(false, false);
+            w.start(&format!("10 {}", lo));
+            w.start(&format!("20 {}", hi));
+            w.start("LIST");
+            w.op("take");
+            let l1 = w.last();
+            let a1 = w.ops.len();
+            w.start("RUN");
+            let mut nr = 0;
+            w.drive(&[], &mut nr, 20, false);
+            w.state();
+            let a2 = w.last();
+            let listing: Vec<String> = w.replies[l1].split(' ').filter_map(|r| r.strip_prefix("P:")).filter_map(unhex).map(|l| l.trim_end_matches('\n').to_string()).collect();
+            w.op("new 0 0");
+            for l in &listing {
+                w.start(l);
+            }
+            w.start("LIST");
+            w.op("take");
+            let l2 = w.last();
+            let b1 = w.ops.len();
+            w.start("RUN");
+            w.drive(&[], &mut nr, 20, false);
+            w.state();
+            let b2 = w.last();
+            cases.push(Case { ops: w.ops, checks: vec![format!("same-reply {} {}", l1, l2), format!("transcript-eq {}-{} {}-{}", a1, a2, b1, b2)], tag: "long-lines-without-blanks".into(), nontrivial: true, show: format!("{} items: {}…", n, lo.chars().take(30).collect::<String>()) });
+        }
+    }
     // texts of equal length that agree in their first 32 / 64 / 255 bytes, in different kinds of token (string, remark, DATA
     // item), entered in DEScending line order - the reload enters them ascending
     for prefix_len in [32usize, 33, 64, 255] {
